@@ -336,5 +336,26 @@ def corpus():
                 "factors": [wcolor, text, dw], "constraints": cons,
                 "blocks": [{"id": 0, "kind": "CrossBlock", "design": [0, 1, 2], "crossing": [1],
                             "constraints": [c["id"] for c in cons], "rcc": True}], "main": 0}))
+    # two within-trial derived factors in one crossing, each reading an uncrossed basic factor: every
+    # crossed derived factor must filter the source combinations (seed C04-source-filter-only-first-derived)
+    fa = {"id": 0, "name": "a", "kind": "simple", "levels": [["0", 1], ["1", 1]]}
+    fb_ = {"id": 1, "name": "b", "kind": "simple", "levels": [["0", 1], ["1", 1]]}
+    fc = {"id": 2, "name": "c", "kind": "simple", "levels": [["0", 1], ["1", 1]]}
+    ab = {"id": 3, "name": "ab", "kind": "derived", "window": {"type": "within", "deps": [0, 1]},
+          "levels": [{"name": "same", "table": [[["0"], ["0"]], [["1"], ["1"]]]}, {"name": "diff", "else": True}]}
+    ac = {"id": 4, "name": "ac", "kind": "derived", "window": {"type": "within", "deps": [0, 2]},
+          "levels": [{"name": "same", "table": [[["0"], ["0"]], [["1"], ["1"]]]}, {"name": "diff", "else": True}]}
+    for tag, crossing in (("ab-ac", [3, 4]), ("ac-ab", [4, 3])):
+        out.append(("two-within-derived-crossed-" + tag, {
+            "factors": [fa, fb_, fc, ab, ac], "constraints": [],
+            "blocks": [{"id": 0, "kind": "CrossBlock", "design": [0, 1, 2, 3, 4], "crossing": crossing, "constraints": [], "rcc": True}],
+            "main": 0}))
+    # POST_PREAMBLE with crossings whose own preambles differ: every crossing starts after the unified
+    # preamble, in every sampler (seed C07-randomgen-raw-preamble-sizes)
+    for tag, crossings in (("plain-first", [[0, 1], [1, 2]]), ("transition-first", [[1, 2], [0, 1]])):
+        out.append(("post-preamble-different-preambles-" + tag, {
+            "factors": [color, text, rep], "constraints": [],
+            "blocks": [{"id": 0, "kind": "MultiCrossBlock", "design": [0, 1, 2], "crossings": crossings, "constraints": [],
+                        "rcc": True, "mode": "repeat", "alignment": "post preamble"}], "main": 0}))
     out += weighted_derived_leftover()
     return out
